@@ -298,15 +298,21 @@ MAX_INLINE_DEPTH = 2
 
 
 def inlinable(body):
+    """may a call to this crate-local function be spliced into the caller's paths?"""
     j = body.j
     if j.get('def_kind') not in ('Fn', 'AssocFn'):
         return False
-    if j.get('vis') == 'Public' or j.get('impl_trait'):
+    if j.get('impl_trait'):
         return False
     k = body.key
     if k.startswith(NO_INLINE_PREFIXES) or k.endswith(NO_INLINE_SUFFIXES):
         return False
     return True
+
+
+def private_helper(body):
+    """a non-public, non-summarised function: analysed only through the callers it is spliced into"""
+    return inlinable(body) and body.j.get('vis') != 'Public'
 
 
 class TooManyPaths(Exception):
